@@ -74,7 +74,9 @@ class SpecFn:
     expression over the parameter names) is instantiated once at every
     application that occurs in a clause (unfold-once)."""
 
-    def __init__(self, name, params, ret, defn=None, unfold=1):
+    def __init__(self, name, params, ret, defn=None, unfold=1, heap=False, facts=()):
+        self.heap = heap  # value depends on object attributes: the heap is an implicit argument
+        self.facts = list(facts)  # extra facts about F(args), instantiated at every application
         self.name = name
         self.params = list(params)  # [(name, type)]
         self.ret = ret
@@ -111,6 +113,7 @@ class Unit:
         notes="",
         body_of=None,
         returns=None,
+        returns_keys=None,
         assume_post_only=False,
         trusted=False,
     ):
@@ -140,6 +143,7 @@ class Unit:
         self.notes = notes
         self.body_of = body_of
         self.returns = returns
+        self.returns_keys = returns_keys  # result is a fresh dict with exactly these string keys
         self.trusted = trusted
         REGISTRY[name] = self
         BY_TARGET[target] = self
